@@ -1,4 +1,248 @@
-(* MV.C20.Properties — placeholder while the pipeline is assembled *)
-From MV Require Import Lib.ListX C20.AstarModel.
-Theorem C20_placeholder : True. Proof. exact I. Qed.
-Print Assumptions C20_placeholder.
+(* MV.C20.Properties — the statements of property C20 and nothing else.
+   Every theorem is closed by [exact <lemma>] and followed by Print Assumptions. *)
+From Coq Require Import QArith Lqa Permutation SetoidList.
+From MV Require Import Lib.ListX C20.AstarModel C20.AstarProofs C20.HeapProofs
+  C20.GeomModel C20.GeomProofs C20.PolyProofs C20.CentroidProofs C20.NavModel C20.NavProofs.
+
+(* ============================================================ A* (toolkit/navigate/astar) ===== *)
+(* [find g start goal] is the model of astar.Find over the container/heap model; a graph g gives
+   GetNeighbours (nbrs), cost and the heuristic towards the goal (heur); nodes are their ids. *)
+
+(* The returned path starts at the start node, ends at the goal and moves only along graph edges
+   (for every graph, every cost function and every heuristic, consistent or not). *)
+Theorem C20_astar_valid : forall (g : graph) (start goal : nat) (p : path),
+  find g start goal = OPath p ->
+  p <> [] /\ hd 0%nat p = start /\ plast p = goal /\ is_walk g p.
+Proof. exact find_valid. Qed.
+Print Assumptions C20_astar_valid.
+
+(* With a consistent heuristic (h(a) <= c(a,b) + h(b) on every edge) the cost of the returned path is the
+   minimum over all walks from start to goal.  Costs may be zero; non-negativity is not even needed. *)
+Theorem C20_astar_optimal : forall (g : graph) (start goal : nat) (p : path),
+  consistent g -> find g start goal = OPath p ->
+  forall w, walk_from_to g start goal w -> (pcost g p <= pcost g w)%Z.
+Proof. exact find_optimal. Qed.
+Print Assumptions C20_astar_optimal.
+
+(* Nothing is returned exactly when the goal is unreachable (finite graph: [nodes g] lists the nodes
+   without repetition and is closed under neighbours). *)
+Theorem C20_astar_none_iff_unreachable : forall (g : graph) (start goal : nat),
+  finite_graph g -> In start (nodes g) ->
+  (find g start goal = ONone <-> ~ reachable g start goal).
+Proof. exact find_none_iff. Qed.
+Print Assumptions C20_astar_none_iff_unreachable.
+
+(* The fuel 2 + sum of out-degrees is never exhausted on a finite graph, and OBad is never produced. *)
+Theorem C20_astar_terminates : forall (g : graph) (start goal : nat),
+  finite_graph g -> In start (nodes g) ->
+  find g start goal <> OOutOfFuel /\ find g start goal <> OBad.
+Proof. intros g s t Hf Hs. split; [exact (find_terminates g s t Hf Hs)|exact (find_not_bad g s t)]. Qed.
+Print Assumptions C20_astar_terminates.
+
+(* The cost found does not depend on how the queue breaks ties: the search over the container/heap model
+   and the search over a plain list queue return paths of equal cost. *)
+Theorem C20_astar_cost_independent_of_tie_breaking : forall (g : graph) (start goal : nat) (p p' : path),
+  consistent g -> find g start goal = OPath p -> find_ref g start goal = OPath p' -> pcost g p = pcost g p'.
+Proof. exact find_cost_queue_independent. Qed.
+Print Assumptions C20_astar_cost_independent_of_tie_breaking.
+
+(* container/heap as transcribed (up/down on a slice): Pop returns an item of minimal f = cost + heuristic and
+   removes exactly that item; Push adds exactly one item; both keep the heap shape. *)
+Theorem C20_heap_is_a_priority_queue : forall (h : list item),
+  heap_ok h ->
+  (forall x, heap_ok (heap_push x h) /\ Permutation (heap_push x h) (x :: h)) /\
+  (forall x h', heap_pop h = Some (x, h') ->
+     heap_ok h' /\ Permutation h (x :: h') /\ forall y, In y h -> (iprio x <= iprio y)%Z) /\
+  (heap_pop h = None -> h = []).
+Proof.
+  intros h Hok. split; [intros x; exact (heap_push_ok x h Hok)|].
+  split; [intros x h' H; exact (heap_pop_ok h x h' Hok H)|exact (heap_pop_none h)].
+Qed.
+Print Assumptions C20_heap_is_a_priority_queue.
+
+(* non-vacuity: a diamond with two cheapest routes and a consistent heuristic; an unreachable goal; start = goal *)
+Definition ex_graph : graph := tbl_graph [[(1%nat, 1%Z); (2%nat, 1%Z)]; [(3%nat, 1%Z)]; [(3%nat, 1%Z)]; []; []] [2; 1; 1; 0; 0]%Z.
+Example C20_astar_example :
+  find ex_graph 0 3 = OPath [0; 1; 3]%nat /\ find ex_graph 0 4 = ONone /\ find ex_graph 2 2 = OPath [2%nat] /\
+  find_ref ex_graph 0 3 = OPath [0; 1; 3]%nat.
+Proof. vm_compute. repeat split. Qed.
+Example C20_astar_example_hypotheses : consistent ex_graph /\ finite_graph ex_graph /\ In 0%nat (nodes ex_graph).
+Proof.
+  split; [|split].
+  - intros a b. destruct a as [|[|[|[|[|[|a]]]]]]; cbn; intros H; repeat (destruct H as [<-|H]; [vm_compute; discriminate|]); destruct H.
+  - apply tbl_graph_finite. intros a b. destruct a as [|[|[|[|[|[|a]]]]]]; cbn; intros H; repeat (destruct H as [<-|H]; [lia|]); destruct H.
+  - cbn. tauto.
+Qed.
+
+(* ============================================================ geometry (toolkit/geometry) ===== *)
+Open Scope Q_scope.
+
+(* The closest point on a segment (REPAIRED formula, see fixes/C20-closest-point*.patch) lies on the segment,
+   and no point of the segment is closer (distances compared squared). *)
+Theorem C20_closest_on_segment_and_minimal : forall (s : seg) (p : pt),
+  (exists t, 0 <= t /\ t <= 1 /\ pt_eq (closest_point s p) (seg_at s t)) /\
+  (forall t, 0 <= t -> t <= 1 -> dist2 p (closest_point s p) <= dist2 p (seg_at s t)).
+Proof. exact closest_point_spec. Qed.
+Print Assumptions C20_closest_on_segment_and_minimal.
+
+(* The formula as written in /repo (only the second product is divided by the squared length) is not the
+   closest point: for (1,3) and the segment (0,0)-(4,0) it yields (4,0), and (1,0) is closer. *)
+Theorem C20_closest_point_as_written_refuted : exists (s : seg) (p : pt) (t : Q),
+  0 <= t /\ t <= 1 /\ dist2 p (seg_at s t) < dist2 p (closest_point_as_written s p).
+Proof. exists ((0, 0), (4, 0)), (1, 3), (1 # 4). vm_compute. repeat split; intros; discriminate. Qed.
+Print Assumptions C20_closest_point_as_written_refuted.
+
+(* IsPointOnSegment (exact form of "d1 + d2 = length and inside the bounding box") holds exactly for the
+   points a + t (b - a), 0 <= t <= 1. *)
+Theorem C20_on_segment_iff : forall (s : seg) (p : pt),
+  on_segment s p = true <-> exists t, 0 <= t /\ t <= 1 /\ pt_eq p (seg_at s t).
+Proof. exact on_segment_iff. Qed.
+Print Assumptions C20_on_segment_iff.
+
+(* Centroids of symmetric shapes are their centres.  [sym_polygon c vs] is a polygon symmetric about c with any
+   number of vertices: the points c + v (v in vs) followed by the points c - v.  Both vertex averages
+   (CalcRectangleVerticesCentroid as REPAIRED, CalcPolygonVerticesCentroid) and, when the area is not zero, the
+   area centroid (CalcPolygonCentroid, shoelace formula) are c.  Last part: the area centroid of any triangle is
+   the mean of its vertices. *)
+Theorem C20_centroid_symmetric :
+  (forall (c : pt) (vs : list pt), vs <> [] ->
+     pt_eq (rect_centroid (sym_polygon c vs)) c /\ pt_eq (vertices_centroid (sym_polygon c vs)) c /\
+     (~ area2 (sym_polygon c vs) == 0 -> pt_eq (polygon_centroid (sym_polygon c vs)) c)) /\
+  (forall a b c : pt, ~ area2 [a; b; c] == 0 ->
+     pt_eq (polygon_centroid [a; b; c]) ((px a + px b + px c) / 3, (py a + py b + py c) / 3)).
+Proof.
+  split; [|exact polygon_centroid_triangle].
+  intros c vs Hne. destruct (vertex_centroids_sym_polygon c vs Hne) as [H1 H2].
+  split; [exact H1|]. split; [exact H2|exact (polygon_centroid_symmetric c vs Hne)].
+Qed.
+Print Assumptions C20_centroid_symmetric.
+
+(* CalcRectangleVerticesCentroid as written returns (x, x): the rectangle (0,2)-(2,4), symmetric about (1,3),
+   gets (1,1). *)
+Theorem C20_rect_centroid_as_written_refuted : exists (c : pt) (vs : list pt),
+  vs <> [] /\ ~ pt_eq (rect_centroid_as_written (sym_polygon c vs)) c.
+Proof.
+  exists (1, 3), [(-1, -1); (1, -1)]. split; [discriminate|]. intros [_ H]. vm_compute in H. discriminate.
+Qed.
+Print Assumptions C20_rect_centroid_as_written_refuted.
+
+(* CalcLineSegmentOverlap (REPAIRED index, fixes/C20-segment-overlap.patch), geometrically: when a segment
+   (u,v) is reported it is not a single point and, among the points x of the common carrying line, those lying
+   on both input segments are exactly those lying on (u,v); when nothing is reported the two segments share at
+   most one point.  (orient a b x == 0 says x is on the line through a and b; u and v are end points of the
+   inputs.)  Third part: the result equals the brute-force definition [max of the lower ends, min of the upper
+   ends] in the order by (x, then y), which is the order in which the Go code sorts the four end points. *)
+Theorem C20_collinear_overlap_iff : forall (l1 l2 : seg),
+  (forall u v, overlap l1 l2 = Some (u, v) ->
+     ~ pt_eq u v /\
+     forall x, orient (fst l1) (snd l1) x == 0 -> orient (fst l2) (snd l2) x == 0 -> orient u v x == 0 ->
+       ((on_seg l1 x /\ on_seg l2 x) <-> on_seg (u, v) x)) /\
+  (overlap l1 l2 = None ->
+     forall x y, on_seg l1 x -> on_seg l2 x -> on_seg l1 y -> on_seg l2 y -> pt_eq x y) /\
+  seg_opt_eq (overlap l1 l2) (overlap_spec l1 l2).
+Proof.
+  intros l1 l2. destruct (overlap_geometric l1 l2) as [H1 H2].
+  split; [exact H1|]. split; [exact H2|exact (overlap_matches_spec l1 l2)].
+Qed.
+Print Assumptions C20_collinear_overlap_iff.
+
+(* As written (the two middle end points are compared) a contained segment is reported as no overlap. *)
+Theorem C20_collinear_overlap_as_written_refuted : exists (l1 l2 : seg),
+  ~ seg_opt_eq (overlap_as_written l1 l2) (overlap_spec l1 l2).
+Proof. exists ((0, 0), (10, 0)), ((2, 0), (5, 0)). vm_compute. tauto. Qed.
+Print Assumptions C20_collinear_overlap_as_written_refuted.
+
+(* Point-in-polygon by ray casting (IsPointInside) agrees with the definition by orientation tests for every
+   strictly convex polygon with any number of vertices, listed counter-clockwise (P) or clockwise (rev P):
+   a point strictly inside (on the inner side of every edge of GetEdges) is accepted, a point strictly outside
+   (on the outer side of some edge) is rejected.  Points on the boundary are not claimed: the Go code treats
+   edges half-open.  [convex_ccw P]: the vertices are pairwise different and every vertex lies strictly on the
+   left of every edge it is not an end point of. *)
+Theorem C20_point_in_convex_polygon_iff : forall (P : polygon) (q : pt),
+  P <> [] -> convex_ccw P ->
+  ((forall e, In e (edges P) -> 0 < orient (fst e) (snd e) q) ->
+     point_inside P q = true /\ point_inside (rev P) q = true) /\
+  ((exists e, In e (edges P) /\ orient (fst e) (snd e) q < 0) ->
+     point_inside P q = false /\ point_inside (rev P) q = false).
+Proof. exact point_in_convex_polygon. Qed.
+Print Assumptions C20_point_in_convex_polygon_iff.
+
+(* The same, spelled out for triangles (either orientation) and axis-aligned rectangles. *)
+Theorem C20_point_in_triangle_or_rectangle :
+  (forall a b c q : pt, 0 < orient a b c ->
+     (0 < orient a b q -> 0 < orient b c q -> 0 < orient c a q -> point_inside [a; b; c] q = true) /\
+     (orient a b q < 0 \/ orient b c q < 0 \/ orient c a q < 0 -> point_inside [a; b; c] q = false)) /\
+  (forall a b c q : pt, orient a b c < 0 ->
+     (orient a b q < 0 -> orient b c q < 0 -> orient c a q < 0 -> point_inside [a; b; c] q = true) /\
+     (0 < orient a b q \/ 0 < orient b c q \/ 0 < orient c a q -> point_inside [a; b; c] q = false)) /\
+  (forall x0 y0 x1 y1 x y : Q, x0 < x1 -> y0 < y1 ->
+     (x0 < x -> x < x1 -> y0 < y -> y < y1 -> point_inside [(x0, y0); (x1, y0); (x1, y1); (x0, y1)] (x, y) = true) /\
+     (x < x0 \/ x1 < x \/ y < y0 \/ y1 < y -> point_inside [(x0, y0); (x1, y0); (x1, y1); (x0, y1)] (x, y) = false)).
+Proof.
+  split; [exact point_in_triangle_ccw|]. split; [exact point_in_triangle_cw|exact point_in_rectangle].
+Qed.
+Print Assumptions C20_point_in_triangle_or_rectangle.
+
+(* non-vacuity: a pentagon satisfying the hypotheses, a point strictly inside, a point outside *)
+Definition ex_pent : polygon := [(0, 0); (4, 0); (5, 3); (2, 5); (-1, 3)].
+Example C20_convex_polygon_example :
+  convex_ccw ex_pent /\ (forall e, In e (edges ex_pent) -> 0 < orient (fst e) (snd e) (2, 2)) /\
+  point_inside ex_pent (2, 2) = true /\ point_inside ex_pent (6, 2) = false /\ point_inside (rev ex_pent) (2, 2) = true.
+Proof.
+  split; [split|split; [|vm_compute; repeat split]].
+  - repeat (constructor; [intros H; repeat (apply InA_cons in H; destruct H as [[E1 E2]|H]; [vm_compute in E1; vm_compute in E2; try discriminate|]); apply InA_nil in H; exact H|]). constructor.
+  - intros e v He Hv N1 N2. vm_compute in He.
+    repeat (destruct He as [<-|He]; [
+      repeat (destruct Hv as [<-|Hv]; [first [exfalso; apply N1; split; reflexivity | exfalso; apply N2; split; reflexivity | vm_compute; reflexivity]|]); destruct Hv |]).
+    destruct He.
+  - intros e He. vm_compute in He. repeat (destruct He as [<-|He]; [vm_compute; reflexivity|]). destruct He.
+Qed.
+
+(* Circle relations match their definitions: Contains = the point is in the closed disk; Intersect = the closed
+   disks share a point; Overlap = the open disks share a point. *)
+Theorem C20_circle_relations : forall (c1 c2 : circle),
+  (forall p, circle_contains c1 p = true <-> 0 <= cradius c1 /\ in_disk c1 p) /\
+  (0 <= cradius c1 -> 0 <= cradius c2 ->
+     (circle_intersect c1 c2 = true <-> exists p, in_disk c1 p /\ in_disk c2 p)) /\
+  (0 < cradius c1 -> 0 < cradius c2 ->
+     (circle_overlap c1 c2 = true <-> exists p, in_open_disk c1 p /\ in_open_disk c2 p)).
+Proof.
+  intros c1 c2. split; [intros p; exact (circle_contains_iff c1 p)|].
+  split; [exact (circle_intersect_iff c1 c2)|exact (circle_overlap_iff c1 c2)].
+Qed.
+Print Assumptions C20_circle_relations.
+
+(* non-vacuity *)
+Example C20_geometry_examples :
+  pt_eq (closest_point ((0, 0), (4, 0)) (1, 3)) (1, 0) /\
+  on_segment ((0, 0), (4, 2)) (2, 1) = true /\ on_segment ((0, 0), (4, 2)) (6, 3) = false /\
+  seg_opt_eq (overlap ((0, 0), (10, 0)) ((2, 0), (5, 0))) (Some ((2, 0), (5, 0))) /\
+  overlap ((0, 0), (5, 0)) ((6, 0), (10, 0)) = None /\
+  circle_intersect {| ccenter := (0, 0); cradius := 2 |} {| ccenter := (3, 4); cradius := 3 |} = true /\
+  circle_overlap {| ccenter := (0, 0); cradius := 2 |} {| ccenter := (3, 4); cradius := 3 |} = false /\
+  pt_eq (rect_centroid [(0, 2); (2, 2); (2, 4); (0, 4)]) (1, 3) /\
+  pt_eq (polygon_centroid (sym_polygon (1, 3) [(2, 0); (1, 2); (-1, 1)])) (1, 3) /\ ~ area2 (sym_polygon (1, 3) [(2, 0); (1, 2); (-1, 1)]) == 0 /\
+  point_inside [(0, 0); (4, 2); (0, 4)] (1, 2) = true /\ point_inside [(0, 0); (4, 2); (0, 4)] (-1, 2) = false /\
+  point_inside [(2, 0); (4, 2); (2, 4); (0, 2)] (-1, 2) = false.
+Proof. vm_compute. repeat split; try (intros H; discriminate). Qed.
+
+(* ============================================================ nav mesh (toolkit/navigate/navmesh) ===== *)
+(* T4: the checker through which the harness passes every path returned by NavMesh.FindPath is sound:
+   an accepted path starts and ends at the given points and every point of every segment of it lies in one of
+   the polygons (closed convex regions).  This validates outputs; the funnel algorithm itself is not modelled. *)
+Theorem C20_path_checker_sound_partial : forall (m : mesh) (start goal : pt) (path : list pt),
+  path_ok m start goal path = true ->
+  exists a rest, path = a :: rest /\ pt_eq a start /\ pt_eq (last path a) goal /\ path_inside m path.
+Proof. exact path_ok_sound. Qed.
+Print Assumptions C20_path_checker_sound_partial.
+
+(* non-vacuity: two unit-wide cells with a gap: a path inside one cell is accepted, a path across the gap is not;
+   an L of three squares: the path around the corner is accepted, the straight line is not *)
+Example C20_path_checker_example :
+  let gap := [[(0, 0); (1, 0); (1, 3); (0, 3)]; [(2, 0); (3, 0); (3, 3); (2, 3)]] in
+  let ell := [[(0, 0); (2, 0); (2, 2); (0, 2)]; [(2, 0); (4, 0); (4, 2); (2, 2)]; [(2, 2); (4, 2); (4, 4); (2, 4)]] in
+  path_ok gap (1 # 2, 1) (1 # 2, 2) [(1 # 2, 1); (1 # 2, 2)] = true /\
+  path_ok gap (1 # 2, 1) (5 # 2, 1) [(1 # 2, 1); (5 # 2, 1)] = false /\
+  path_ok ell (1, 1) (3, 7 # 2) [(1, 1); (2, 2); (3, 7 # 2)] = true /\
+  path_ok ell (1 # 2, 1) (3, 7 # 2) [(1 # 2, 1); (3, 7 # 2)] = false.
+Proof. vm_compute. repeat split. Qed.
